@@ -73,6 +73,8 @@ func (e *Exec) vndCall(th *Thread, fn *ssa.Function, a []Value) Value {
 			return e.intConst(8, -1) // zerolog.TraceLevel
 		}
 		return e.intConst(8, 7) // zerolog.Disabled
+	case "Delay":
+		return a[0]
 	case "TraceLogging":
 		// a named value fixed by the harness options: it travels in the model, so the native
 		// replay builds its services with the same log level
